@@ -531,7 +531,28 @@ impl<'tcx> Cx<'tcx> {
                     o.push(("res", self.qpath(qp, pe.hir_id)));
                 }
             },
-            PatKind::Range(..) => o.push(("p", J::s("Range"))),
+            PatKind::Range(lo, hi, end) => {
+                o.push(("p", J::s("Range")));
+                let lit_of = |pe: &hir::PatExpr<'tcx>| -> J {
+                    match &pe.kind {
+                        hir::PatExprKind::Lit { lit: l, negated } => {
+                            let v = lit(&l.node);
+                            match (v, negated) {
+                                (J::Num(n), true) => J::Num(-n),
+                                (v, _) => v,
+                            }
+                        }
+                        _ => J::Null,
+                    }
+                };
+                if let Some(l) = lo {
+                    o.push(("lo", lit_of(l)));
+                }
+                if let Some(h) = hi {
+                    o.push(("hi", lit_of(h)));
+                }
+                o.push(("end", J::s(format!("{:?}", end))));
+            }
             PatKind::Slice(a, m, b) => {
                 o.push(("p", J::s("Slice")));
                 o.push(("before", J::Arr(a.iter().map(|x| self.pat(x)).collect())));
